@@ -9,6 +9,7 @@ import hypothesis
 from hypothesis import HealthCheck, Phase, given, settings
 
 from .common import ShardResult, canon, derive_seed, leave_crumb, spec_hash
+from .kernels import Timeout as _Timeout
 
 
 class Outcome:
@@ -55,6 +56,8 @@ def drive(strategy, evaluate, n_examples: int, seed_parts, res: ShardResult, shr
             leave_crumb(case)
             try:
                 o = evaluate(case)
+            except _Timeout as e:  # budget hit: inconclusive, never a verdict
+                o = Outcome(status="timeout-inconclusive", what=str(e))
             except Exception:  # harness bug: never a verdict
                 res.harness_errors.append("evaluate() raised:\n" + traceback.format_exc()[-3000:] + "\ncase: " + canon(case)[:1500])
                 o = Outcome(status="harness-error")
